@@ -253,7 +253,7 @@ Moved == [
   StopLine |-> {"start", "end"},
   Lanelet |-> {"left_vertices", "center_vertices", "right_vertices", "stop_line"},
   TrafficSign |-> {"position"}, TrafficLight |-> {"position"},
-  LaneletNetwork |-> {"lanelets", "traffic_signs", "traffic_lights"},
+  LaneletNetwork |-> {"lanelets", "traffic_signs", "traffic_lights", "areas"},
   GoalRegion |-> {"state_list"}, PlanningProblem |-> {"initial_state", "goal_region"},
   PlanningProblemSet |-> {"planning_problem_list"}, Scenario |-> {"lanelet_network", "obstacles"} ]
 (* translate_rotate is not applicable (raises) when ALL these groups are given - recorded as a C05 finding:    *)
